@@ -12,6 +12,12 @@ Ops (JSON lists):
   ["Import", c, [[id, t, d], ...]]               _importDatasets([DatasetRef(dt, d, run=c, id=uuid(id))])
   ["Assoc", c, [[id, t, d, run], ...]]  ["Disassoc", c, [[id, t, d, run], ...]]
   ["RemoveDs", [[id, t, d, run], ...]]  ["RemoveColl", c]
+Second layer (Model/RegistryX.v):
+  ["RegChain", c] ["RegCalib", c]                registerCollection(CHAINED | CALIBRATION)
+  ["SetChain", c, [child, ...]]                  setCollectionChain
+  ["Certify", c, [[id, t, d, run], ...], b, len] certify(c, refs, [grid(b), grid(b + 1 + len)))
+  ["RemoveType", t]                              removeDatasetType
+dt2 is registered with isCalibration=True (Model/RegistryX.v is_calib_type).
 """
 from __future__ import annotations
 
@@ -22,6 +28,17 @@ from harness.impl import fixture
 
 NINST, NDET = 2, 2
 NS = uuid.UUID("5a0c6b1e-0000-4000-8000-00000000c002")
+CALIB_TYPE = 2
+GRID0, GRIDSTEP = 1_600_000_000_000_000_000, 1_000_000_000_000      # validity-range grid point k = GRID0 + k * GRIDSTEP ns
+
+
+def grid_ns(k):
+    return GRID0 + k * GRIDSTEP
+
+
+def grid_k(ns):
+    k, rem = divmod(ns - GRID0, GRIDSTEP)
+    return k if rem == 0 and 0 <= k < 1000 else 999999
 
 
 def cname(n):
@@ -50,7 +67,7 @@ class Driver:
         from lsst.daf.butler import DatasetType
         for t in range(ntype + 2):
             self.dtypes[t] = DatasetType(tname(t), dimensions=["instrument", "detector"], storageClass="StructuredDataDict",
-                                         universe=self.butler.dimensions)
+                                         universe=self.butler.dimensions, isCalibration=(t == CALIB_TYPE))
         self.dbfile = f"{self.root}/gen3.sqlite3"
 
     # -- id bijection ---------------------------------------------------------------------
@@ -106,6 +123,22 @@ class Driver:
         if k == "RemoveColl":
             self.reg.removeCollection(cname(op[1]))
             return "Ok"
+        if k in ("RegChain", "RegCalib"):
+            from lsst.daf.butler import CollectionType
+            kind = CollectionType.CHAINED if k == "RegChain" else CollectionType.CALIBRATION
+            return "OkNew" if self.reg.registerCollection(cname(op[1]), kind) else "Ok"
+        if k == "SetChain":
+            self.reg.setCollectionChain(cname(op[1]), [cname(x) for x in op[2]])
+            return "Ok"
+        if k == "Certify":
+            from lsst.daf.butler import Timespan
+            _, c, items, b, ln = op
+            self.reg.certify(cname(c), [self.ref(n, t, d, run) for n, t, d, run in items],
+                             Timespan(None, None, _nsec=(grid_ns(b), grid_ns(b + 1 + ln))))
+            return "Ok"
+        if k == "RemoveType":
+            self.reg.removeDatasetType(tname(op[1]))
+            return "Ok"
         raise ValueError(f"unknown op {op}")
 
     def step(self, op):
@@ -148,6 +181,8 @@ class Driver:
         obs["types"] = types
         views = {"qd": [], "qa": [], "bq": [], "fd": [], "qp": [], "bqp": []}
         have_c = {c for c, _ in colls}
+        xkind = {c: k for c, k in colls if k in ("CHAINED", "CALIBRATION")}
+        xv = {"chains": [], "qd": [], "bq": [], "qa_cal": [], "qa_chain": [], "first": [], "fd": [], "summ_t": [], "summ_g": []}
         summ_t, summ_g = [], []
         for c in range(self.ncoll + 1):
             cn = cname(c)
@@ -155,11 +190,14 @@ class Driver:
                 s = reg.getCollectionSummary(cn)
                 for dt in s.dataset_types.names:
                     if dt.startswith("dt"):
-                        summ_t.append([c, int(dt[2:])])
+                        (xv["summ_t"] if c in xkind else summ_t).append([c, int(dt[2:])])
                 for g in s.governors.get("instrument", ()):
-                    summ_g.append([c, int(g[1:])])
+                    (xv["summ_g"] if c in xkind else summ_g).append([c, int(g[1:])])
             except Exception as e:  # noqa: BLE001
                 perr("getCollectionSummary", e)
+            if c in xkind:
+                self._observe_x(c, xkind[c], types, xv, perr)
+                continue
             for t in range(self.ntype + 1):
                 tn = tname(t)
                 try:
@@ -206,8 +244,55 @@ class Driver:
         obs["views"] = views
         obs["summ_t"] = sorted(summ_t)
         obs["summ_g"] = sorted(summ_g)
+        for k in xv:
+            xv[k].sort()
+        obs["x"] = xv
         obs.update(self.raw())
         return obs
+
+    def _observe_x(self, c, kind, types, xv, perr):
+        """Probes of one CHAINED / CALIBRATION collection (second layer)."""
+        reg, butler, cn = self.reg, self.butler, cname(c)
+        if kind == "CHAINED":
+            try:
+                xv["chains"].append([c] + [int(n[1:]) for n in reg.getCollectionChain(cn)])
+            except Exception as e:  # noqa: BLE001
+                perr("getCollectionChain", e)
+        for t in types:
+            tn = tname(t)
+            try:
+                for r in reg.queryDatasets(tn, collections=[cn], findFirst=False):
+                    xv["qd"].append(self._row(c, t, r))
+            except Exception as e:  # noqa: BLE001
+                perr("x-queryDatasets", e)
+            try:
+                for r in butler.query_datasets(tn, collections=[cn], find_first=False, explain=False, limit=None):
+                    xv["bq"].append(self._row(c, t, r))
+            except Exception as e:  # noqa: BLE001
+                perr("x-query_datasets", e)
+            try:
+                for a in reg.queryDatasetAssociations(tn, collections=[cn], flattenChains=True):
+                    row = self._row(int(a.collection[1:]), t, a.ref)
+                    if kind == "CALIBRATION":
+                        ns = a.timespan.nsec if a.timespan is not None else (0, 0)
+                        xv["qa_cal"].append(row + [grid_k(ns[0]), grid_k(ns[1])])
+                    else:
+                        xv["qa_chain"].append([c] + row[1:])
+            except Exception as e:  # noqa: BLE001
+                perr("x-queryDatasetAssociations", e)
+            if kind == "CHAINED" and t != CALIB_TYPE:
+                try:
+                    for r in reg.queryDatasets(tn, collections=[cn], findFirst=True):
+                        xv["first"].append(self._row(c, t, r))
+                except Exception as e:  # noqa: BLE001
+                    perr("x-queryDatasets-first", e)
+                for d in range(NINST * NDET):
+                    try:
+                        r = butler.find_dataset(tn, did(d), collections=[cn])
+                        if r is not None:
+                            xv["fd"].append(self._row(c, t, r))
+                    except Exception as e:  # noqa: BLE001
+                        perr("x-find_dataset", e)
 
     def raw(self):
         """Rows read directly from the SQLite file (committed state), mapped back to numeric ids."""
@@ -239,11 +324,24 @@ class Driver:
                     for ty, ds, co, inst, det in cur.execute(
                             f"select dataset_type_id, dataset_id, collection_id, instrument, detector from {tb}"):
                         tags.append([cnum(co), tnum(ty), int(inst[1:]) * NDET + int(det), dsn(ds)])
+            cal = []
+            for tb in tables:
+                if tb.startswith("dataset_calibs_"):
+                    names = [r[1] for r in cur.execute(f"pragma table_info({tb})")]
+                    if "instrument" not in names or "detector" not in names:
+                        continue
+                    for ty, ds_, co, inst, det, tb_, te_ in cur.execute(
+                            f"select dataset_type_id, dataset_id, collection_id, instrument, detector, timespan_begin, timespan_end from {tb}"):
+                        cal.append([cnum(co), tnum(ty), int(inst[1:]) * NDET + int(det), dsn(ds_), grid_k(tb_), grid_k(te_)])
+            chain = {}
+            for pa, ch, pos in cur.execute("select parent, child, position from collection_chain order by parent, position"):
+                chain.setdefault(cnum(pa), []).append(cnum(ch))
             ds = [[dsn(i), tnum(ty), cnum(run)] for i, ty, run in cur.execute("select id, dataset_type_id, run_id from dataset")]
             st = [[cnum(c), tnum(t)] for c, t in cur.execute("select collection_id, dataset_type_id from collection_summary_dataset_type")]
             sg = [[cnum(c), int(g[1:])] for c, g in cur.execute("select collection_id, instrument from collection_summary_instrument")]
             rc = sorted([cnum(k), {1: "RUN", 2: "TAGGED", 3: "CHAINED", 4: "CALIBRATION"}.get(v[1], str(v[1]))] for k, v in cols.items())
-            return {"raw_tags": sorted(tags), "raw_ds": sorted(ds), "raw_summ_t": sorted(st), "raw_summ_g": sorted(sg),
+            return {"raw_cal": sorted(cal), "raw_chain": sorted([p] + ch for p, ch in chain.items()),
+                    "raw_tags": sorted(tags), "raw_ds": sorted(ds), "raw_summ_t": sorted(st), "raw_summ_g": sorted(sg),
                     "raw_colls": rc, "raw_types": sorted(tnum(k) for k in tys)}
         finally:
             con.close()
